@@ -59,9 +59,10 @@ func (g *GenCfg) iriID(r *RNG) string {
 	return id
 }
 
-var langTags = []string{"en", "fr", "de", "ro"}
+var langTags = []string{"en", "fr", "de", "ro", "pt-BR", "zh-Hant-TW", "deu"}
 var texts = []string{"hello", "Ana are mere", "<p>some <b>html</b></p>", "x", "two words", "ünïcode ✓",
 	// a paragraph: longer than any buffer, preview or cut-off a helper might apply (64, 128 bytes)
+	"a line\u2028separator and a paragraph\u2029separator", "a replacement \ufffd character",
 	"A longer paragraph of text, the kind a post usually holds: it runs past sixty-four bytes, past one hundred and twenty-eight bytes too, and ends with a full stop."}
 var mimeTypes = []string{"text/html", "text/plain", "image/png"}
 
@@ -78,7 +79,10 @@ func (g *GenCfg) genNLV(r *RNG) []interface{} {
 		return []interface{}{[]interface{}{tag, r.Pick(texts)}}
 	}
 	out := []interface{}{}
-	perm := []int{0, 1, 2, 3}
+	perm := make([]int, len(langTags))
+	for i := range perm {
+		perm[i] = i
+	}
 	for i := range perm {
 		j := i + r.Intn(len(perm)-i)
 		perm[i], perm[j] = perm[j], perm[i]
@@ -248,6 +252,13 @@ func (g *GenCfg) genNode(r *RNG, goType string, depth int, embedded bool) T {
 			}
 		case "float":
 			z := int64(r.Intn(180000000)) + 1
+			if r.Chance(25) {
+				// a whole number, often a round one (90, 1600, 40): the digits before the point end in zeros
+				z = int64(1+r.Intn(180)) * 1000000
+				if r.Chance(60) {
+					z = int64(1+r.Intn(18)) * []int64{10, 100, 1000}[r.Intn(3)] * 1000000
+				}
+			}
 			if g.Negatives && r.Chance(40) {
 				z = -z
 			}
